@@ -20,7 +20,8 @@ Entries == {"aperture_photometry", "do_photometry", "aperture_mask", "aperture_s
             "bkg_estimators", "detect_threshold", "detect_sources", "deblend_sources", "source_finder", "source_catalog",
             "find_peaks", "daofinder", "iraffinder", "starfinder", "centroids", "centroid_sources", "profiles", "psf_photometry",
             "iterative_psf", "calc_total_error", "utils", "morphology", "aperture_mask_edge", "stats_large",
-            "aperture_photometry_subpixel", "sky_apertures", "annuli", "fit_gaussian", "psf_matching", "datasets", "harmonics", "interpolators", "segment_cutouts"}
+            "aperture_photometry_subpixel", "sky_apertures", "annuli", "fit_gaussian", "psf_matching", "datasets", "harmonics", "interpolators", "segment_cutouts",
+            "isophote_fit"}
 Reps == {"i8", "i2", "u2", "f4", "bigendian", "fortran", "strided", "ma_nomask", "ma_allfalse", "nddata", "quantity", "mixed_units", "convertible_units"}
 NDDataEntries == {"aperture_photometry_subpixel", "aperture_photometry", "aperture_stats", "psf_photometry"}
 \* entry points whose outputs are in data units (so Quantity inputs must give Quantity outputs)
